@@ -33,3 +33,28 @@ def long_text(n, pat):
     base = "a\u00e9\u6f22\U0001F600"
     lead = "" if pat == 6 else ("\u00e9" if pat == 7 else "\U0001F600")
     return (lead + base * (n // 4 + 1))[:n]
+
+
+# ------------------------------------------------------------------ content corpus: text that is "active" somewhere
+# Strings a peer may legitimately put into a name, message, id or payload and that mean something to SOME layer a
+# careless implementation routes them through: %-templates, str.format templates, shell/template variables,
+# escapes, line separators (str.splitlines splits on \x0b \x0c \x1c-\x1e \x85    ), BOM / zero-width
+# characters, leading/trailing white space, JSON-looking and number-looking text, the names of JSON literals.
+TEXTS = (
+    "100% full", "%s and %d", "%(name)s", "50%% off", "{0} {x} {}", "{", "}}", "$HOME ${x} $(id)", "back\\slash \\n \\u0041",
+    "tab\there", "line\nfeed", "carriage\rreturn", "ff\x0cvt\x0bfs\x1c", "\x00nul", " lead", "trail ", "\ttab-lead", "nbsp x",
+    "quote\"s'`", "<b>&amp;</b>", "ls ps nel\u0085", "﻿bom", "zero​width", "é漢\U0001F600", "é vs é",
+    "null", "None", "true", "False", "0", "-1", "007", "1e3", "0x10", "NaN", "[]", "{}", '{"jsonrpc":"2.0","id":1}', "[1, 2]",
+    "a/b", "a.b", "../x", "a//b", "_meta", "$ref", "__class__", "file:///x?y=1#z", "UPPER", "MiXeD",
+)
+
+
+def pick_text(i):
+    """the i-th entry as a concrete string (if-chain over a symbolic selector, rule R10)"""
+    for j in range(len(TEXTS)):
+        if i == j:
+            return TEXTS[j]
+    return TEXTS[-1]
+
+
+N_TEXTS = len(TEXTS)
